@@ -58,6 +58,7 @@ def units(tier, seed):
                        "max_states": 25 if tier == "quick" else 80,
                        "max_execs_per_op": 60 if tier == "quick" else 300})
     us += search_units(tier)
+    us += [u for u in P.standard_units(tier, [], with_pt=False) if u.get("reannotate")]
     return us
 
 
